@@ -8,6 +8,10 @@ TEXT = {
    text='Unbounded rely/guarantee proof on the real fiber_spinlock_lock/trylock/unlock: CBMC code contracts enforced with goto-instrument --dfcc on the woven source (an adversarial interference point before every shared access, step monitor classifying every write as TAKE or REL), spin loop closed by a loop contract, plus a bit-vector lemma layer (actions preserve the invariant, guarantee inside rely, rely transitive, invariant implies mutual exclusion / FIFO / trylock-only-on-free) over all 2^32 x 2^32 lock words including wrap-around.',
    note='Sequential consistency; CAS modelled strong; capacity < 2^32-1 outstanding tickets; termination of the spin loop not proved; fiber_manager_get by contract.',
    technique='CBMC function+loop contracts (DFCC) on woven real code, rely/guarantee ghost state, SAT lemmas', ref='5 C18, Appendix A.1'),
+ 'C03': dict(
+   text='Unbounded rely/guarantee proof on the real fiber_mutex_lock/trylock/unlock_internal/unlock: DFCC-enforced contracts over ghost (own, announced waiters W, hand-off in transit X) with counter = 1 - own - W; every counter write classified FAST/ANNOUNCE/FREE/HANDOFF by the step monitor; contended unlock proved to perform exactly one hand-off and exactly one wake(1); trylock proved never to park; lemma layer proves the actions inductive, inside the rely, and that INV implies mutual exclusion, no waiter on a free mutex, contended unlock is a hand-off.',
+   note='Park/unpark (fiber_manager_wait_in/wake_from_mpsc_queue, fiber_yield) by contract (trusted here, enforced under C01); SC; visibility of critical-section writes is SC-trivial (memory orders not checked semantically); capacity < 2^30 waiters.',
+   technique='CBMC function contracts (DFCC) on woven real code, rely/guarantee ghost counters, SAT lemmas', ref='5 C03'),
 }
 NOT_YET = 'check not built yet at this commit (DESIGN.md section 5 describes the planned contracts)'
 checks, na = [], []
